@@ -3,6 +3,7 @@ package q
 import (
 	"fmt"
 	"go/token"
+	"go/types"
 	"sort"
 	"strings"
 
@@ -923,4 +924,113 @@ func (c *Ctx) NeverAfter(fn *ssa.Function, first, then Target, why string) {
 	} else {
 		c.OK("K2", fnName, what, c.At(tins[0]), why)
 	}
+}
+
+// ResultSweep (K1, thorough tier): every call in the module to a callee
+// matching spec has its verdict (boolean and/or error result) looked at: tested
+// by a branch, returned to the caller, or handed on (stored, passed, merged).
+// A call statement whose results are all dropped, `_ =`-style extraction of the
+// verdict only into nothing, or a `go`/`defer` of a verdict-bearing callee is a
+// discarded verdict. skip: enclosing function -> reason (frozen exemptions).
+func (c *Ctx) ResultSweep(spec string, skip map[string]string) int {
+	n := 0
+	for _, fn := range c.P.AllFns {
+		for _, ci := range CallsIn(fn, spec) {
+			sig := ci.Common().Signature()
+			hasVerdict := false
+			for i := 0; i < sig.Results().Len(); i++ {
+				t := sig.Results().At(i).Type()
+				if isErrorType(t) {
+					hasVerdict = true
+				}
+				if b, ok := t.Underlying().(*types.Basic); ok && b.Kind() == types.Bool {
+					hasVerdict = true
+				}
+			}
+			if !hasVerdict {
+				continue
+			}
+			n++
+			c.Sites++
+			name := load.QualName(fn)
+			cal := Callee(ci.Common())
+			what := "verdict of " + strings.TrimPrefix(cal.Recv+"."+cal.Name, ".") + " is looked at"
+			if why, ok := skip[load.QualName(Top(fn))+"|"+cal.Name]; ok {
+				c.OK("K1s", name, what, c.At(ci), "exempt: "+why)
+				continue
+			}
+			val, ok := ci.(ssa.Value)
+			if !ok { // go / defer
+				c.Fail("K1s", name, what, c.At(ci), "the call is deferred or spawned: its verdict cannot be observed")
+				continue
+			}
+			r := Results(val)
+			used := map[byte]bool{}
+			for _, t := range r.Tests(fn, false) {
+				for _, k := range []byte{'b', 'e'} {
+					if condUses(t.If.Cond, r, k, 0) {
+						used[k] = true
+					}
+				}
+			}
+			for _, ret := range Returns(fn) {
+				for _, rv := range ret.Results {
+					if k := r.isRes(rv); k != 0 {
+						used[k] = true
+					}
+				}
+			}
+			handed := func(m map[ssa.Value]bool, k byte) {
+				for v := range m {
+					if refs := v.Referrers(); refs != nil {
+						for _, x := range *refs {
+							switch x.(type) {
+							case *ssa.Store, *ssa.Phi, ssa.CallInstruction, *ssa.MakeInterface, *ssa.BinOp, *ssa.UnOp, *ssa.MakeClosure, *ssa.ChangeInterface, *ssa.TypeAssert, *ssa.Send:
+								used[k] = true
+							}
+						}
+					}
+				}
+			}
+			handed(r.Bool, 'b')
+			handed(r.Err, 'e')
+			var missing []string
+			if hasErr(sig) && (len(r.Err) == 0 || !used['e']) {
+				// a (bool, error) callee that never answers (true, non-nil) is fully judged by its boolean
+				if !(hasBool(sig) && used['b'] && ci.Common().StaticCallee() != nil && !MayReturnTrueErr(ci.Common().StaticCallee(), 0)) {
+					missing = append(missing, "error")
+				}
+			}
+			if hasBool(sig) && (len(r.Bool) == 0 || !used['b']) {
+				// a (bool, error) callee whose boolean is redundant with the error is accepted
+				if !(hasErr(sig) && !MayReturnFalseNil(ci.Common().StaticCallee(), 0) && ci.Common().StaticCallee() != nil) {
+					missing = append(missing, "boolean")
+				}
+			}
+			if len(missing) == 0 {
+				c.OK("K1s", name, what, c.At(ci), "")
+			} else {
+				c.Fail("K1s", name, what, c.At(ci), "discarded: "+strings.Join(missing, ", ")+" result is neither tested, returned nor handed on")
+			}
+		}
+	}
+	return n
+}
+
+func hasErr(sig *types.Signature) bool {
+	for i := 0; i < sig.Results().Len(); i++ {
+		if isErrorType(sig.Results().At(i).Type()) {
+			return true
+		}
+	}
+	return false
+}
+
+func hasBool(sig *types.Signature) bool {
+	for i := 0; i < sig.Results().Len(); i++ {
+		if b, ok := sig.Results().At(i).Type().Underlying().(*types.Basic); ok && b.Kind() == types.Bool {
+			return true
+		}
+	}
+	return false
 }
